@@ -59,6 +59,9 @@ fn is_false(b: &bool) -> bool {
 fn is_zero(b: &u8) -> bool {
     *b == 0
 }
+fn is_zero32(v: &u32) -> bool {
+    *v == 0
+}
 fn d1024() -> usize {
     1024
 }
@@ -84,14 +87,34 @@ pub struct Content {
     /// serialisation of the token, after the content handlers have returned)
     #[serde(default, skip_serializing_if = "is_false")]
     pub fail_stream: bool,
+    /// k>0 (with stream>0): the streaming handler writes the content's UTF-8 *bytes* in k pieces
+    /// through write_utf8_chunk (pieces may end inside a character; for odd k an empty piece
+    /// follows the first one)
+    #[serde(default, skip_serializing_if = "is_zero")]
+    pub utf8_chunks: u8,
+}
+
+/// Byte pieces for `Content::utf8_chunks`.
+pub fn byte_pieces(s: &str, k: u8) -> Vec<Vec<u8>> {
+    let b = s.as_bytes();
+    let k = (k as usize).max(1);
+    let per = b.len().div_ceil(k).max(1);
+    let mut v: Vec<Vec<u8>> = b.chunks(per).map(<[u8]>::to_vec).collect();
+    if v.is_empty() {
+        v.push(vec![]);
+    }
+    if k % 2 == 1 {
+        v.insert(1.min(v.len()), vec![]);
+    }
+    v
 }
 
 impl Content {
     pub fn text(s: &str) -> Self {
-        Content { s: s.into(), html: false, stream: 0, fail_stream: false }
+        Content { s: s.into(), html: false, stream: 0, fail_stream: false, utf8_chunks: 0 }
     }
     pub fn html(s: &str) -> Self {
-        Content { s: s.into(), html: true, stream: 0, fail_stream: false }
+        Content { s: s.into(), html: true, stream: 0, fail_stream: false, utf8_chunks: 0 }
     }
 }
 
@@ -321,6 +344,10 @@ pub struct Scenario {
     /// use send::HtmlRewriter
     #[serde(default, skip_serializing_if = "is_false")]
     pub send: bool,
+    /// element handlers do not inspect the attribute list before running their script (the
+    /// recorded unit has no attributes): lazily materialised state is first touched by the script
+    #[serde(default, skip_serializing_if = "is_false")]
+    pub blind: bool,
 }
 
 impl Scenario {
@@ -344,6 +371,7 @@ impl Scenario {
             closure_sink: false,
             misuse_calls: 0,
             send: false,
+            blind: false,
         }
     }
 
@@ -414,5 +442,9 @@ pub struct ReplayFile {
     pub known: Option<String>,
     pub seed: u64,
     pub run: u64,
+    /// > 1: the failure did not show on every evaluation of this identical case (the system
+    /// under test is not a function of its input); replay evaluates up to this many times
+    #[serde(default, skip_serializing_if = "is_zero32")]
+    pub repeat: u32,
     pub case: Case,
 }
